@@ -373,7 +373,15 @@ func runCase(pr *prepared, sc scenario, db *sql.DB) *caseResult {
 		return res
 	}
 	_ = os.MkdirAll(tmp, 0o700)
-	mon := &delMonitor{root: root, p: p, raw: pr.raw, keyCols: pr.keyCols, collapse: pr.collapse, narrow: pr.narrow}
+	// A collapse on a key narrower than the union of the announced tags is the known
+	// effect of re-compacting a compacted (tag-less) file together with raw files. One
+	// complete job over raw files only - no pre-compacted file, one batch, no crash -
+	// has no such input: there the union of the files' tag lists is the only legal key.
+	narrow := pr.narrow
+	if sc.Kind == "freeze" && sc.N < 0 && !p.PreCompact && len(p.Files) <= p.MaxBatch {
+		narrow = nil
+	}
+	mon := &delMonitor{root: root, p: p, raw: pr.raw, keyCols: pr.keyCols, collapse: pr.collapse, narrow: narrow}
 	snapNote := func(step string) {
 		res.timeline = append(res.timeline, map[string]any{"after": step, "files": storageListing(root)})
 	}
@@ -463,7 +471,7 @@ func runCase(pr *prepared, sc scenario, db *sql.DB) *caseResult {
 		}
 		snap := takeSnapshot(root, p)
 		res.counters["rows_compared"] += int64(len(snap.Rows))
-		if f := compareRows(pr.before, snap, pr.keyCols, pr.collapse, mustColl, pr.raw, pr.narrow); len(f) > 0 && res.findings == nil {
+		if f := compareRows(pr.before, snap, pr.keyCols, pr.collapse, mustColl, pr.raw, narrow); len(f) > 0 && res.findings == nil {
 			res.findings, res.when = f, fmt.Sprintf("after restart cycle %d", i)
 		}
 		cur := storageListing(root)
